@@ -460,6 +460,7 @@ def run(tier):
                 jobs.append(dict(api=api, feats=list(sub) + ["noline_opt"]))
     nlay = len(jobs) - npay
     nprobes = ndirs = 0
+    distinct = set()      # distinct (region, payload, carrier) triples and layout subsets that ran clean (measured)
     for j, res in pmap(run_one, jobs, check=ck):
         if "worker_exception" in res:
             ck.broken.append("worker failed on %s: %s" % (j, res["worker_exception"]))
@@ -478,14 +479,16 @@ def run(tier):
                 what = "[%s, layout %s %s] %s" % (j["api"], "+".join(j["feats"]) or "(plain)", " ".join(j.get("cli", [])), what)
             ck.violation(full, what, files={"p.l": res["spec"]}, case={"job": j})
         if not res["msgs"]:
+            pa_ = j.get("payload_at")
+            distinct.add(("P",) + tuple(pa_) if pa_ else ("L", tuple(sorted(j["feats"]))))
             ck.sample({"api": j["api"], "payload_at": j.get("payload_at"), "feats": j["feats"], "probes": res.get("nprobes")}, limit=10)
-    ck.cov.update(evaluations=len(jobs), distinct_nontrivial=len(PAYLOADS) + len(CHARLITS) + len(subsets), payload_specs=npay, layout_specs=nlay,
+    ck.cov.update(evaluations=len(jobs), distinct_nontrivial=len(distinct), payload_specs=npay, layout_specs=nlay,
                   line_probes_checked=nprobes, line_directives_checked=ndirs, regions=len(REGIONS), payloads=len(PAYLOADS), layout_features=len(LAYOUT_FEATS),
                   rule="payload family: every (region, payload, carrier) triple alone: the string / character literal is read back from the running scanner "
                        "and compared byte for byte, comments are looked up verbatim in the generated file, and the scanner must compile; layout family: "
                        "every listed subset of layout features with a __LINE__ probe in every region: each probe reports its own input line, each "
-                       "'#line N \"lex.yy.c\"' stands on output line N-1, and -L / %option noline leave no #line; distinct_nontrivial = payloads + "
-                       "character literals + layout subsets")
+                       "'#line N \"lex.yy.c\"' stands on output line N-1, and -L / %option noline leave no #line; distinct_nontrivial = distinct "
+                       "(region, payload, carrier) triples and distinct layout subsets whose run was clean, counted on this run")
     ck.assumptions += ["user code is valid C in its place (balanced braces outside literals and comments, as the manual requires)",
                        "'|' actions are not generated for the c99 back end (it cannot process them at all; recorded in DESIGN.md)"]
     ck.guard(nprobes > 1000, "too few line probes evaluated: %d" % nprobes)
